@@ -139,6 +139,9 @@ impl FragmentNumberSet {
     ) -> RtpsMessageResult<Self> {
         let base = FragmentNumber::try_read_from_bytes(data, endianness)?;
         let num_bits = u32::try_read_from_bytes(data, endianness)?;
+        if num_bits > 256 || base.checked_add(num_bits).is_none() {
+            return Err(RtpsMessageError::InvalidData);
+        }
         let number_of_bitmap_elements = num_bits.div_ceil(32) as usize; //In standard referred to as "M"
         let mut bitmap = [0; 8];
 
